@@ -1,14 +1,106 @@
 //! C06 executor.  One line = `<modulus> <op> <operands...>`; operands of value type are i64
 //! constructor arguments (the only public way to build a `Modular<M>`), exponents are u64.
-//!   new v | read v | neg a | inv a | pow a d
+//! `<modulus>` is a decimal literal of the dispatch list or one of the crate's alias names
+//! `Mint998` / `Mint107` (the case then runs through the alias type, whatever modulus it denotes).
+//!   new v | read v | readfar v d | neg a | inv a | pow a d
 //!   add a b | sub a b | mul a b | div a b          (operator form)
 //!   adda a b | suba a b | mula a b | diva a b      (assigning form)
 //!   eq a b
-//! Output: `R <inner()> <Display> <Debug> <Writable>` for a value, `R <0|1> <0|1>` for eq
-//! (`==` and `!(a != b)`), `P` if anything panicked.
+//!   rpn tok...      multi-step expression on a stack: an integer literal pushes `new(v)`, `Z`/`O` push the
+//!                   constants ZERO/ONE, `dup` copies the top, `+ - * /` operator forms, `+= -= *= /=` assigning
+//!                   forms, `neg`, `inv`, `^d` = pow(d); a final `==` prints the comparison line, otherwise the
+//!                   single remaining value is printed
+//!   readv k v0..vn  `read_vec::<Modular<M>>(n+1)` of the tokens, element k is printed
+//!   readt k a i b   `read::<(Modular<M>, i64, Modular<M>)>()`, component k (0 or 2) is printed (i must come back)
+//!   tinv a | tdiv a b   the inverse / quotient computed on a freshly spawned thread that first inverts the same
+//!                   number under other moduli, while this thread inverts under a third modulus
+//!   show a mm rat   `Show::show` with `ShowSettings { mint_max: mm, mint_rational: rat != 0, ..new() }`
+//!   showd a         `Show::show` with `ShowSettings::new()`
+//! Output: `R <inner()> x<hex Display> x<hex Debug> x<hex Writable> [!check ...]` for a value (the renderings
+//! byte-exact, hex-encoded; `!name` for every internal consistency check that failed), `R <0|1> <0|1>` for
+//! a comparison (`==` and `!(a != b)`), `S x<hex>` for show, `P` if anything panicked.
 use rlib_io::{Reader, Writer};
-use rlib_mint::Modular;
+use rlib_mint::{Mint107, Mint998, Modular};
+use rlib_show::{Show, ShowSettings};
 use vh::p;
+
+fn hex(b: &[u8]) -> String {
+    let mut s = String::with_capacity(1 + 2 * b.len());
+    s.push('x');
+    for c in b {
+        s.push_str(&format!("{:02x}", c));
+    }
+    s
+}
+
+fn written<T: rlib_io::Writable>(t: &T) -> Vec<u8> {
+    let mut sink: Vec<u8> = Vec::new();
+    {
+        let mut w = Writer::new(Box::new(&mut sink));
+        w.write(t);
+        w.flush();
+    }
+    sink
+}
+
+/// the modulus an alias type denotes, as a constant usable as a const-generic argument
+trait HasM {
+    const MM: u32;
+}
+impl<const M: u32> HasM for Modular<M> {
+    const MM: u32 = M;
+}
+
+fn is_literal(s: &str) -> bool {
+    let b = s.as_bytes();
+    b[0].is_ascii_digit() || (b.len() > 1 && b[0] == b'-' && b[1].is_ascii_digit())
+}
+
+/// Formatter flags, `to_string`, and the generic io containers must treat a value like its `inner()`.
+fn consistency<const M: u32>(r: Modular<M>) -> Vec<&'static str> {
+    let i: u32 = r.inner();
+    let mut bad = Vec::new();
+    if format!("{:>12}|{:<3}|{:012}|{:+}|{:^7}|{:*<5}", r, r, r, r, r, r)
+        != format!("{:>12}|{:<3}|{:012}|{:+}|{:^7}|{:*<5}", i, i, i, i, i, i)
+    {
+        bad.push("!fmt-display-flags");
+    }
+    if format!("{:#?}|{:6?}|{:<4?}|{:08?}", r, r, r, r) != format!("{:#?}|{:6?}|{:<4?}|{:08?}", i, i, i, i) {
+        bad.push("!fmt-debug-flags");
+    }
+    if r.to_string() != i.to_string() {
+        bad.push("!to-string");
+    }
+    let zero = Modular::<M>::ZERO;
+    let one = Modular::<M>::ONE;
+    if written(&vec![r, zero, one, r]) != written(&vec![i, 0u32, 1u32, i]) {
+        bad.push("!write-vec");
+    }
+    if written(&(r, -5i64, r)) != written(&(i, -5i64, i)) || written(&(one, r)) != written(&(1u32, i)) {
+        bad.push("!write-tuple");
+    }
+    #[allow(clippy::nonminimal_bool)]
+    if zero.inner() != 0
+        || one.inner() != 1
+        || !(zero == Modular::<M>::new(0))
+        || !(one == Modular::<M>::new(1))
+        || zero != Modular::<M>::new(M as i64)
+        || one != Modular::<M>::new(M as i64 + 1)
+        || zero == one
+    {
+        bad.push("!consts");
+    }
+    if !(r == Modular::<M>::new(i as i64)) || r != Modular::<M>::new(i as i64) {
+        bad.push("!eq-new-inner");
+    }
+    bad
+}
+
+fn eq_line<const M: u32>(a: Modular<M>, b: Modular<M>) -> String {
+    #[allow(clippy::nonminimal_bool)]
+    let s = format!("R {} {}", (a == b) as u8, !(a != b) as u8);
+    s
+}
 
 fn run<const M: u32>(t: &[&str]) -> String {
     let m = |s: &str| Modular::<M>::new(p::<i64>(s));
@@ -45,6 +137,26 @@ fn run<const M: u32>(t: &[&str]) -> String {
             }
             reader.read::<Modular<M>>()
         }
+        "readv" => {
+            let k: usize = p(t[2]);
+            let text = format!("{}\n", t[3..].join(" "));
+            let mut reader = Reader::new(Box::new(text.as_bytes()));
+            let v: Vec<Modular<M>> = reader.read_vec(t.len() - 3);
+            assert_eq!(v.len(), t.len() - 3);
+            v[k]
+        }
+        "readt" => {
+            let k: usize = p(t[2]);
+            let text = format!("{} {}\n{}\n", t[3], t[4], t[5]);
+            let mut reader = Reader::new(Box::new(text.as_bytes()));
+            let (a, i, b): (Modular<M>, i64, Modular<M>) = reader.read();
+            assert_eq!(i, p::<i64>(t[4]));
+            if k == 0 {
+                a
+            } else {
+                b
+            }
+        }
         "neg" => -m(t[2]),
         "inv" => m(t[2]).inv(),
         "pow" => m(t[2]).pow(p::<u64>(t[3])),
@@ -73,29 +185,137 @@ fn run<const M: u32>(t: &[&str]) -> String {
             x
         }
         "eq" => {
-            let (a, b) = (m(t[2]), m(t[3]));
-            #[allow(clippy::nonminimal_bool)]
-            return format!("R {} {}", (a == b) as u8, !(a != b) as u8);
+            return eq_line(m(t[2]), m(t[3]));
+        }
+        "rpn" => {
+            let mut st: Vec<Modular<M>> = Vec::new();
+            let n = t.len();
+            for (idx, tok) in t[2..].iter().enumerate() {
+                let tok = *tok;
+                if is_literal(tok) {
+                    st.push(m(tok));
+                    continue;
+                }
+                match tok {
+                    "Z" => st.push(Modular::<M>::ZERO),
+                    "O" => st.push(Modular::<M>::ONE),
+                    "dup" => {
+                        let x = *st.last().unwrap();
+                        st.push(x);
+                    }
+                    "neg" => {
+                        let x = st.pop().unwrap();
+                        st.push(-x);
+                    }
+                    "inv" => {
+                        let x = st.pop().unwrap();
+                        st.push(x.inv());
+                    }
+                    "==" => {
+                        assert!(idx + 3 == n && st.len() == 2, "== must end the program");
+                        return eq_line(st[0], st[1]);
+                    }
+                    _ if tok.starts_with('^') => {
+                        let x = st.pop().unwrap();
+                        st.push(x.pow(p::<u64>(&tok[1..])));
+                    }
+                    _ => {
+                        let y = st.pop().unwrap();
+                        let mut x = st.pop().unwrap();
+                        let r = match tok {
+                            "+" => x + y,
+                            "-" => x - y,
+                            "*" => x * y,
+                            "/" => x / y,
+                            "+=" => {
+                                x += y;
+                                x
+                            }
+                            "-=" => {
+                                x -= y;
+                                x
+                            }
+                            "*=" => {
+                                x *= y;
+                                x
+                            }
+                            "/=" => {
+                                x /= y;
+                                x
+                            }
+                            other => {
+                                eprintln!("harness: unknown rpn token {}", other);
+                                std::process::exit(3)
+                            }
+                        };
+                        st.push(r);
+                    }
+                }
+            }
+            if st.len() != 1 {
+                eprintln!("harness: rpn program leaves {} values", st.len());
+                std::process::exit(3)
+            }
+            st[0]
+        }
+        "tinv" | "tdiv" => {
+            // a fresh thread: first the same number under two other moduli (a per-thread table keyed by the value
+            // alone would now hold their inverses), then under M; this thread inverts under a third modulus meanwhile
+            let a: i64 = p(t[2]);
+            let b: i64 = if t[1] == "tdiv" { p(t[3]) } else { 0 };
+            let div = t[1] == "tdiv";
+            let h = std::thread::spawn(move || {
+                let d = if div { b } else { a };
+                let w1 = Modular::<65537>::new(d).inv();
+                let w2 = Modular::<1000000007>::new(d).inv();
+                let r = if div { Modular::<M>::new(a) / Modular::<M>::new(b) } else { Modular::<M>::new(a).inv() };
+                (r, w1.inner(), w2.inner())
+            });
+            let d = if div { b } else { a };
+            let here = Modular::<998244353>::new(d).inv();
+            let (r, w1, w2) = h.join().unwrap();
+            assert_eq!(w1, Modular::<65537>::new(d).inv().inner());
+            assert_eq!(w2, Modular::<1000000007>::new(d).inv().inner());
+            assert_eq!(here.inner(), Modular::<998244353>::new(d).inv().inner());
+            r
+        }
+        "show" | "showd" => {
+            let a = m(t[2]);
+            let s = if t[1] == "show" {
+                let st = ShowSettings { mint_max: p::<i64>(t[3]), mint_rational: t[4] != "0", ..ShowSettings::new() };
+                a.show(&st)
+            } else {
+                a.show(&ShowSettings::new())
+            };
+            return format!("S {}", hex(s.as_bytes()));
         }
         other => {
             eprintln!("harness: unknown op {}", other);
             std::process::exit(3)
         }
     };
-    let mut sink: Vec<u8> = Vec::new();
-    {
-        let mut w = Writer::new(Box::new(&mut sink));
-        w.write(&r);
-        w.flush();
-    }
+    let sink = written(&r);
     assert_eq!(Modular::<M>::md(), M);
-    format!("R {} {} {:?} {}", r.inner(), r, r, String::from_utf8(sink).unwrap())
+    let mut line = format!(
+        "R {} {} {} {}",
+        r.inner(),
+        hex(format!("{}", r).as_bytes()),
+        hex(format!("{:?}", r).as_bytes()),
+        hex(&sink)
+    );
+    for b in consistency(r) {
+        line.push(' ');
+        line.push_str(b);
+    }
+    line
 }
 
 macro_rules! dispatch {
     ($t:expr, $($m:literal),*) => {
         match $t[0] {
             $( stringify!($m) => run::<$m>($t), )*
+            "Mint998" => run::<{ <Mint998 as HasM>::MM }>($t),
+            "Mint107" => run::<{ <Mint107 as HasM>::MM }>($t),
             other => {
                 eprintln!("harness: modulus {} is not instantiated", other);
                 std::process::exit(3)
@@ -107,8 +327,9 @@ macro_rules! dispatch {
 fn main() {
     vh::serve(|t| {
         dispatch!(
-            t, 2, 3, 4, 6, 7, 11, 12, 65536, 65537, 998244353, 1000000007, 2147483647, 2147483646,
-            2147483629
+            t, 2, 3, 4, 5, 6, 7, 9, 10, 11, 12, 15, 21, 25, 341, 561, 46341, 65536, 65537, 1373653, 16777216,
+            16777259, 998244353, 1000000000, 1000000007, 1073741823, 1073741824, 1073741827, 2147483645, 2147483646,
+            2147483647, 2147483629
         )
     });
 }
